@@ -13,7 +13,6 @@ use std::time::{Duration, Instant};
 
 use tinylfu_cached::cache::cached::CacheD;
 use tinylfu_cached::cache::config::ConfigBuilder;
-use tinylfu_cached::cache::put_or_update::PutOrUpdateRequestBuilder;
 use tinylfu_cached::cache::stats::StatsType;
 use tinylfu_cached::cache::verif::{Controller, Role};
 
@@ -75,6 +74,7 @@ pub fn run(args: &[String]) {
     let stop_ticks = Arc::new(AtomicBool::new(false));
     let progress: Vec<Arc<AtomicU64>> = (0..threads).map(|_| Arc::new(AtomicU64::new(0))).collect();
     let min_seen = Arc::new(AtomicI64::new(0));
+    let max_seen = Arc::new(AtomicI64::new(0));
     let mut handles = Vec::new();
     {
         let (ctl, stop_ticks, clock) = (ctl.clone(), stop_ticks.clone(), clock.clone());
@@ -87,11 +87,12 @@ pub fn run(args: &[String]) {
         }));
     }
     {
-        let (cache, stop, min_seen) = (cache.clone(), stop.clone(), min_seen.clone());
+        let (cache, stop, min_seen, max_seen) = (cache.clone(), stop.clone(), min_seen.clone(), max_seen.clone());
         handles.push(thread::spawn(move || {
             while !stop.load(Ordering::SeqCst) {
                 let w = cache.total_weight_used();
                 if w < min_seen.load(Ordering::SeqCst) { min_seen.store(w, Ordering::SeqCst); }
+                if w > max_seen.load(Ordering::SeqCst) { max_seen.store(w, Ordering::SeqCst); }
                 std::hint::spin_loop();
             }
         }));
@@ -111,7 +112,7 @@ pub fn run(args: &[String]) {
                     0 | 1 | 2 => cache.put_with_weight_and_ttl(SlowKey(k), v, 30 + rng.below(10) as i64, Duration::from_millis(250 + rng.below(750))).ok(),
                     3 => cache.put_with_weight(SlowKey(k), v, 5 + rng.below(10) as i64).ok(),
                     4 | 5 | 6 => cache.delete(SlowKey(k)).ok(),
-                    7 => cache.put_or_update(PutOrUpdateRequestBuilder::new(SlowKey(k)).value(v).weight(30 + rng.below(9) as i64).build()).ok(),
+                    7 => { let _ = cache.get_ref(&SlowKey(k)).map(|r| *r.value().value_ref()); None }
                     _ => { let _ = cache.get(&SlowKey(k)); None }
                 }));
                 match attempt {
@@ -163,6 +164,7 @@ pub fn run(args: &[String]) {
     println!("{}", J::obj(vec![
         ("stress2", J::Bool(true)), ("threads", J::I(threads as i128)), ("millis", J::I(millis as i128)), ("operations", J::I(total as i128)),
         ("hung", J::Bool(hung)), ("min_total_seen", J::I(min_seen.load(Ordering::SeqCst) as i128)),
+        ("max_total_seen", J::I(max_seen.load(Ordering::SeqCst) as i128)), ("cache_weight", J::I(100)),
         ("final_total", J::I(final_total as i128)), ("keys_balance", J::I(keys_balance)),
         ("panic_count", J::I(panic_list.len() as i128)), ("panics", J::A(panic_list.iter().take(3).map(|p| J::S(p.clone())).collect())),
         ("roles", J::obj(vec![
